@@ -40,7 +40,7 @@ func (c c09Case) name() string {
 	return fmt.Sprintf("%s|%s|%s|between=%v|plain=%v|burst=%v", c.Config, c.Cred, c.Fault, c.Between, c.Plain, c.Burst)
 }
 
-var c09Creds = []string{"none", "plain-text", "self-signed", "foreign-ca", "expired", "wrong-name", "name-on-intermediate", "valid"}
+var c09Creds = []string{"none", "plain-text", "self-signed", "foreign-ca", "expired", "wrong-name", "name-on-intermediate", "wrong-name+forged-extra", "valid"}
 var c09Faults = []string{"complete", "abort-after-hello", "stall", "garbage"}
 var c09Configs = []string{"norule", "rule", "rule+pw"}
 
@@ -49,7 +49,7 @@ func c09Accepted(config, cred string) bool {
 	switch cred {
 	case "valid":
 		return true
-	case "wrong-name", "name-on-intermediate":
+	case "wrong-name", "name-on-intermediate", "wrong-name+forged-extra":
 		return config == "norule"
 	}
 	return false
@@ -443,7 +443,7 @@ func init() {
 	fw.Register(&fw.Prop{
 		ID:    "C09",
 		Level: "model_checking",
-		Rule:  "complete product: server configuration {no rule, common-name rule, rule + password} x client credential {none, plain-text bytes, self-signed, foreign CA, expired, right CA wrong name, right name only on an intermediate, valid} x handshake fault {complete, abort after ClientHello, stall, garbage} x placement {faulty client first; between two valid clients} x plain port {on, off} = 384 scenarios, plus 192 'burst' scenarios in which the faulty client and the following valid client connect concurrently (their sockets can be accepted back to back). The server is configured through its public API and started with Start(); the REAL crypto/tls handshake runs on both sides over the in-memory transport under the cooperative scheduler (clients are tls.Client in harness threads). After the faulty client (and while a stalled one is still connected) a valid TLS client must complete handshake, GET and PING, and a plain client must PING; judged at quiescence, no timers. Quick: every schedule with at most one deviation from the default scheduler; thorough: two.",
+		Rule:  "complete product: server configuration {no rule, common-name rule, rule + password} x client credential {none, plain-text bytes, self-signed, foreign CA, expired, right CA wrong name, right name only on an intermediate, right CA wrong name followed by a self-made certificate with the right name, valid} x handshake fault {complete, abort after ClientHello, stall, garbage} x placement {faulty client first; between two valid clients} x plain port {on, off} = 432 scenarios, plus 216 'burst' scenarios in which the faulty client and the following valid client connect concurrently (their sockets can be accepted back to back). The server is configured through its public API and started with Start(); the REAL crypto/tls handshake runs on both sides over the in-memory transport under the cooperative scheduler (clients are tls.Client in harness threads). After the faulty client (and while a stalled one is still connected) a valid TLS client must complete handshake, GET and PING, and a plain client must PING; judged at quiescence, no timers. Quick: every schedule with at most one deviation from the default scheduler; thorough: two.",
 		Assumptions: []string{
 			"certificates are generated per run with crypto/x509 (ECDSA P-256); their random keys change bytes, not control flow",
 			"the in-memory transport stands for TCP; a stalled client is one that connects and never sends",
